@@ -30,11 +30,16 @@ Definition dec_of {A} (tab : list (bytes * option A)) (k : bytes) : option A :=
 
 Definition obytes_eqb := option_eqb bytes_eqb.
 
+(** The queue stores the message as protobuf: an empty non-nil address is read back as nil, so the
+    observation cannot tell them apart. *)
+Definition norm_addr (o : option bytes) : option bytes := match o with Some [] => None | _ => o end.
+Definition addr_eqb (a b : option bytes) : bool := obytes_eqb (norm_addr a) (norm_addr b).
+
 Definition call_eqb (a b : call) : bool :=
   bytes_eqb (c_chain a) (c_chain b) && bytes_eqb (c_turnstone a) (c_turnstone b) &&
   bytes_eqb (c_contract a) (c_contract b) && bytes_eqb (c_abi a) (c_abi b) &&
-  bytes_eqb (c_payload a) (c_payload b) && obytes_eqb (c_sender a) (c_sender b) &&
-  obytes_eqb (c_contractaddr a) (c_contractaddr b) && Bool.eqb (c_mev a) (c_mev b) &&
+  bytes_eqb (c_payload a) (c_payload b) && addr_eqb (c_sender a) (c_sender b) &&
+  addr_eqb (c_contractaddr a) (c_contractaddr b) && Bool.eqb (c_mev a) (c_mev b) &&
   (c_assignee a =? c_assignee b).
 
 Definition qmsg_eqb (a b : qmsg) : bool :=
